@@ -14,8 +14,9 @@ and the part of crossplane-runtime/pkg/fieldpath they call (getValue, setValue, 
 
 What is NOT computed by the model (library behaviour, shipped by the harness as an oracle table that is
 keyed by the operation's input, so that the model refuses an oracle computed for another input):
-the field path parser, Go regexp, fmt.Sprintf, float64 arithmetic/printing/parsing, resource.Quantity,
-hashing, base64, strings.ToUpper/ToLower, encoding/json of transform values, mergo.
+the field path parser, Go regexp, fmt.Sprintf outside the fragment `sprintfLite` computes, float64
+arithmetic/printing/parsing, resource.Quantity, hashing, base64, strings.ToUpper/ToLower on non-ASCII text,
+encoding/json of transform values, mergo.
 -/
 namespace Xp.C10
 
@@ -541,6 +542,57 @@ def fmtV (orc : Orc) (x : V) : Except E String :=
   | .null => .ok "<nil>"
   | _ => orcStr orc x "pv"
 
+/-! ### computed string functions (were oracle entries): ASCII case mapping, the plain fragment of fmt.Sprintf -/
+
+def isAsciiStr (s : String) : Bool := s.toList.all fun c => c.toNat < 128
+
+def upperChar (c : Char) : Char := if 'a' ≤ c && c ≤ 'z' then Char.ofNat (c.toNat - 32) else c
+def lowerChar (c : Char) : Char := if 'A' ≤ c && c ≤ 'Z' then Char.ofNat (c.toNat + 32) else c
+
+/-- strings.ToUpper on ASCII text: 'a'..'z' are shifted, every other byte is kept -/
+def asciiUpper (s : String) : String := String.ofList (s.toList.map upperChar)
+/-- strings.ToLower on ASCII text -/
+def asciiLower (s : String) : String := String.ofList (s.toList.map lowerChar)
+
+/-- strings.ToUpper(fmt.Sprintf("%v", input)): computed for ASCII text, Unicode case mapping
+(library tables) through the oracle key "upper" -/
+def upperOf (orc : Orc) (input : V) : Except E String :=
+  match fmtV orc input with
+  | .error e => .error e
+  | .ok s => if isAsciiStr s then .ok (asciiUpper s) else orcStr orc input "upper"
+
+/-- strings.ToLower(fmt.Sprintf("%v", input)) -/
+def lowerOf (orc : Orc) (input : V) : Except E String :=
+  match fmtV orc input with
+  | .error e => .error e
+  | .ok s => if isAsciiStr s then .ok (asciiLower s) else orcStr orc input "lower"
+
+/-- fmt.Sprintf(format, args...) on the fragment the model computes: literal text, `%%` and the plain
+verbs `%s` (string operand), `%d` (integer operand), `%t` (bool operand), `%v` (string, integer,
+bool or nil operand), every operand consumed exactly once, in order. `none`: outside the fragment
+(flags, widths, argument indexes, other verbs, a verb/operand mismatch, missing or extra operands –
+fmt's `%!verb(type=value)` / `%!(EXTRA …)` / `%!(NOVERB)` diagnostics –, float/array/map operands):
+the library's answer is taken from the oracle. -/
+def sprintfLite : List Char → List V → Option (List Char)
+  | [], [] => some []
+  | [], _ :: _ => none
+  | '%' :: '%' :: rest, args => (sprintfLite rest args).map ('%' :: ·)
+  | '%' :: 's' :: rest, .str s :: args => (sprintfLite rest args).map (s.toList ++ ·)
+  | '%' :: 'd' :: rest, .num i :: args => (sprintfLite rest args).map ((fmtInt i).toList ++ ·)
+  | '%' :: 't' :: rest, .bool b :: args => (sprintfLite rest args).map ((fmtBool b).toList ++ ·)
+  | '%' :: 'v' :: rest, .str s :: args => (sprintfLite rest args).map (s.toList ++ ·)
+  | '%' :: 'v' :: rest, .num i :: args => (sprintfLite rest args).map ((fmtInt i).toList ++ ·)
+  | '%' :: 'v' :: rest, .bool b :: args => (sprintfLite rest args).map ((fmtBool b).toList ++ ·)
+  | '%' :: 'v' :: rest, .null :: args => (sprintfLite rest args).map ("<nil>".toList ++ ·)
+  | '%' :: _, _ => none
+  | c :: rest, args => (sprintfLite rest args).map (c :: ·)
+
+/-- fmt.Sprintf(format, input) of the string Format transform -/
+def fmtStr (orc : Orc) (format : String) (input : V) : Except E String :=
+  match sprintfLite format.toList [input] with
+  | some cs => .ok (String.ofList cs)
+  | none => orcStr orc input "fmt"
+
 /-- `%T` of a value held in an unstructured object -/
 def goType : V → String
   | .null => "<nil>"
@@ -772,11 +824,11 @@ def stringRegexpWith (sel : List String → Int → Except E String) (orc : Orc)
 
 def stringRegexp := stringRegexpWith selectGroup
 
-/-- stringConvertTransform: everything but the dispatch is library behaviour -/
+/-- stringConvertTransform: the dispatch; ASCII case mapping is computed, the rest is library behaviour -/
 def stringConvert (orc : Orc) (c : String) (input : V) : Except E String :=
   match c with
-  | "ToUpper" => orcStr orc input "upper"
-  | "ToLower" => orcStr orc input "lower"
+  | "ToUpper" => upperOf orc input
+  | "ToLower" => lowerOf orc input
   | "ToJson" => match orcVal orc input "json" with
     | .ok (.str s) => .ok s
     | .ok .null => .error .marshal
@@ -830,7 +882,7 @@ def resolveStringWith (sel : List String → Int → Except E String) (orc : Orc
   | "Format" =>
     match t.fmt with
     | none => .error .strCfg
-    | some _ => orcStr orc input "fmt"
+    | some f => fmtStr orc f input
   | "Convert" =>
     match t.convert with
     | none => .error .strCfg
@@ -1030,9 +1082,13 @@ def combineVals (c : Combine) (vars : List V) : Except E V :=
   if c.strategy == "string" then
     match c.fmt with
     | none => .error .combineCfg
-    | some _ => match orcStr c.orc (.arr vars) "out" with
-      | .ok s => .ok (.str s)
-      | .error e => .error e
+    | some f =>
+      -- CombineString: fmt.Sprintf(format, vars...) – computed on the plain fragment, else the oracle
+      match sprintfLite f.toList vars with
+      | some cs => .ok (.str (String.ofList cs))
+      | none => match orcStr c.orc (.arr vars) "out" with
+        | .ok s => .ok (.str s)
+        | .error e => .error e
   else .error .combineStrategy
 
 /-- ApplyCombineFromVariablesPatch(p, from, to) -/
